@@ -192,6 +192,23 @@ def runTags (c : Cfg) (f : Final) (cap : Nat) : List String :=
   ++ (if recs.any (fun x => !x.sample.success) then ["errors"] else [])
   ++ (if f.completeSet then ["complete-set"] else [])
 
+def parseSub (j : Json) : Except String Alloc.Sub := do
+  return ⟨← getNat j "id", ← getNat j "clients", ← getBool j "cp", ← getBool j "acp"⟩
+
+def parseElement (j : Json) : Except String Alloc.Element := do
+  let ov ← getOptNat j "clients"
+  let ts ← (← getArr j "tasks").mapM parseSub
+  return ⟨ov, ts⟩
+
+def getTaskOp (j : Json) : Except String TaskOp :=
+  match j with
+  | Json.str "read" => pure .readThroughput
+  | Json.str "test_mode" => pure .testMode
+  | _ =>
+    match j.getObjVal? "set_tt" with
+    | .ok _ => do return .setThroughput (← getPVal j "set_tt")
+    | .error _ => do return .setInterval (← getPVal j "set_ti")
+
 def handle (op : String) (a : Json) : Except String Json := do
   match op with
   | "tput" =>
@@ -268,6 +285,33 @@ def handle (op : String) (a : Json) : Except String Json := do
       ("queue", arr ((st.queues.getD st.cur []).map (fun i => toJson i))),
       ("dropped", arr (st.dropped.map (fun i => toJson i)))])
       ((if st.dropped.isEmpty then [] else ["dropped"]) ++ (if st.batches.any (fun b => !b.isEmpty) then ["drained"] else []))
+  | "alloc_ramp" =>
+    -- ramp-up wait of every TaskAllocation of a whole schedule; `ramps`: sub id -> ramp-up-time-period
+    let r ← getMode a
+    let sch ← (← getArr a "schedule").mapM parseElement
+    let rampsJ ← getArr a "ramps"
+    let ramps ← rampsJ.mapM (fun j => do return (← getNat j "id", ← getNum j "ramp"))
+    let rows := Alloc.allocations sch
+    let mut out : Array Json := #[]
+    let mut ri := 0
+    for row in rows do
+      let mut pi := 0
+      for e in row do
+        match e with
+        | .task sub i g total =>
+          let ramp := ((ramps.find? (fun p => p.1 == sub.id)).map (·.2)).getD none
+          match rampUpWait r ramp g total with
+          | .ok w => out := out.push (arr [toJson ri, toJson pi, toJson sub.id, toJson i, toJson g, toJson total, ratStr w])
+          | .error e => out := out.push (arr [toJson ri, toJson pi, toJson sub.id, toJson i, toJson g, toJson total, Json.str (errName e)])
+        | _ => pure ()
+        pi := pi + 1
+      ri := ri + 1
+    let m := Alloc.maxClients sch
+    return ok (Json.arr out)
+      ((if sch.any (fun e => e.clients < m) then ["narrower-element"] else []) ++
+       (if sch.any (fun e => e.clientsOverride.isSome) then ["override"] else []) ++
+       (if sch.any (fun e => e.total > e.clients) then ["overcommit"] else []) ++
+       (if sch.any (fun e => e.tasks.length > 1) then ["parallel"] else []))
   | "run" =>
     let r ← getMode a
     let task ← getObj a "task"
@@ -280,6 +324,25 @@ def handle (op : String) (a : Json) : Except String Json := do
       warmupT := ← getNum task "warmup_t", period := ← getNum task "period", rampUp := ← getNum task "ramp_up",
       clients := ← getNat task "clients", sched := sched,
       completesParent := ← getBool task "completes_parent", anyCompletesParent := ← getBool task "any_completes_parent" }
+    -- the same Task object is read / rewritten / post-processed before it is scheduled
+    let opsJ := match a.getObjVal? "task_ops" with
+      | .ok (Json.arr xs) => xs.toList
+      | _ => []
+    let ops ← opsJ.mapM getTaskOp
+    -- the client's TaskAllocation: hand-built (`client`) or entry (row, pos) of the allocation matrix of a whole schedule
+    let (tClients, cIdx, cGidx, cTotal) ← match a.getObjVal? "alloc" with
+      | .ok (Json.obj _) => do
+        let al ← getObj a "alloc"
+        let sch ← (← getArr al "schedule").mapM parseElement
+        match (pickEntry sch (← getNat al "row") (← getNat al "pos")).bind allocClient with
+        | some x => pure x
+        | none => throw "alloc: no task entry at (row, pos)"
+      | _ => pure (← getNat task "clients", ← getNat cl "idx", ← getNat cl "gidx", ← getNat cl "total")
+    let _ := cIdx
+    let t : TaskP := { t with clients := tClients }
+    match applyOps r ops ⟨t, tt, ti⟩ with
+      | .error e => return err (errName e) ["setup-error", "task-op-error"]
+      | .ok _ => pure ()
     let onError ← a.getObjValAs? String "on_error"
     let c : Cfg := {
       r := r, t0 := ← getRat a "t0", epoch := ← getRat a "epoch", client := ← getNat cl "id", clients := t.clients,
@@ -290,7 +353,7 @@ def handle (op : String) (a : Json) : Except String Json := do
     let reqs ← reqsJ.mapM getReq
     let cap ← getNat a "queue_cap"
     let srcInf ← getBool a "src_infinite"
-    match runClient c t tt ti (← getNat cl "gidx") (← getNat cl "total") srcInf cap reqs with
+    match runClientOps c ops t tt ti cGidx cTotal srcInf cap reqs with
     | .error e => return err (errName e) ["setup-error"]
     | .ok f =>
       let o := f.out
@@ -307,7 +370,10 @@ def handle (op : String) (a : Json) : Except String Json := do
         ("complete_set", toJson f.completeSet),
         ("end", ratStr o.endClock),
         ("ramp_wait", ratStr f.rampWait)]
-      return ok res (runTags c f cap ++ progTags reqs o.wire.length)
+      return ok res (runTags c f cap ++ progTags reqs o.wire.length
+        ++ (if ops.isEmpty then [] else ["task-ops"])
+        ++ (if ops.any (fun o => match o with | .testMode => true | _ => false) then ["test-mode"] else [])
+        ++ (match a.getObjVal? "alloc" with | .ok (Json.obj _) => ["from-allocator"] | _ => []))
   | _ => throw s!"unknown op {op}"
 
 end Drivers.Exec
